@@ -370,9 +370,9 @@ class RefPeer(object):
         return rq
 
     # ---- DIMSE
-    def send_dimse(self, ctx, command_fields, data=None, composition=None):
+    def send_dimse(self, ctx, command_fields, data=None, composition=None, data_set_type=0x0001):
         fields = dict(command_fields)
-        fields[R.TAG_DATA_SET_TYPE] = 0x0001 if data else 0x0101
+        fields[R.TAG_DATA_SET_TYPE] = data_set_type if data else 0x0101
         cmd = R.build_command_set(fields)
         pdvs = R.fragment(cmd, data, self.peer_max, ctx)
         comp = composition or [1] * len(pdvs)
